@@ -3,6 +3,7 @@
 package stringclassifier
 
 import (
+	"github.com/google/licenseclassifier/stringclassifier/searchset"
 	"encoding/json"
 	"fmt"
 	"go/ast"
@@ -158,6 +159,30 @@ func TestVerifC13(t *testing.T) {
 			o.attempt("C13", fmt.Sprintf("s%d_plant%d", si, k), map[string]interface{}{"call": "MultipleMatch", "unknown_hex": hxs(unknown), "values_hex": vhexAll(values), "threshold": th})
 			pan, msg := catch(func() { ms = c.MultipleMatch(unknown) })
 			normU, normV := c.normalize(unknown), c.normalize(v)
+			// stage v1exact: the exact path of findMatches (literal occurrences -> token range -> byte
+			// range), white-box, against LC/Model/V1Glue + V1Tok; threshold 0 so that nothing is filtered
+			if !pan && normV != "" {
+				res := "fuzzy"
+				if findAllIndex(normU, normV) != nil {
+					mm := newMatcher(normU, 0)
+					kv := &knownValue{key: "k", normalizedValue: normV, set: searchset.New(normV, searchset.DefaultGranularity)}
+					mm.findMatches(kv)
+					var ps []string
+					var offs []int
+					ext := map[int]int{}
+					for mm.queue.Len() > 0 {
+						x := mm.queue.Pop().(*Match)
+						offs = append(offs, x.Offset)
+						ext[x.Offset] = x.Extent
+					}
+					sort.Ints(offs)
+					for _, of := range offs {
+						ps = append(ps, fmt.Sprintf("%d:%d", of, ext[of]))
+					}
+					res = strings.Join(ps, " ")
+				}
+				o.corr("v1exact", fmt.Sprintf("x%d_%d", si, k), []string{hxs(normU), hxs(normV)}, res)
+			}
 			what := ""
 			nPlant++
 			if pan {
